@@ -16,6 +16,16 @@ CHECKS["C02"] = ("proggen",
   "Generated-input search: thousands of generated structs/enum variants deriving each of the nine fmt traits with generated literals and argument lists are compiled by the real proc-macro; each value is formatted through the derived impl and through a reference method that calls format! with the identical literal, arguments and documented bindings; texts must be byte-equal. Also attribute-less single-field delegation and unit names under all eight rename_all casings against an independent casing function.",
   "trusts rustc/format! of the installed stable toolchain as reference; casing oracle only for names made of [A-Z][a-z]+ words",
   "DESIGN.md section 5 C02")
+CHECKS["C16"] = ("inproc+proggen",
+  "differential testing of the argument splitter against syn's full expression parser on grammar-generated expression lists (proptest dice), cross-validated on a sample against rustc's own `$e:expr` matcher",
+  "Generated-input search: 60k (quick) to 1M (thorough) comma-separated expression lists from a recursive grammar over every expression form, with aliases, trailing commas and adversarial adjacency, are split by the derive's token scanner (working-tree source, in-process) and by syn's full parser; element count, token equality, single-identifier classification, the sentinel bound through a real Display expansion and verbatim spacing-sensitive re-emission are compared. A sample is compiled so that rustc's `$e:expr` matcher validates the proxy.",
+  "trusts syn 2 (full) as proxy of Rust's expression grammar, validated against rustc on a sample each run; three recorded defects of the scanner are known findings with rewrite-based defect models",
+  "DESIGN.md section 5 C16")
+CHECKS["C18"] = ("inproc",
+  "robustness fuzzing of all 50 expanders and the literal parser in-process under catch_unwind in crash-isolated worker processes: exhaustive short literals, adversarial literals, template+mutation+random attribute token streams, all item shapes; panic-site classification (deliberate diagnostic vs internal failure)",
+  "Generated-input search over ~0.85M (quick) inputs: every short string over a 27-symbol alphabet through the literal parser, adversarial long/Unicode/huge-number literals through Display/Debug expansions at every attribute level, documented attribute templates mutated at token-tree level plus random token streams on container/variant/field positions for every attribute-taking derive, and unit/tuple/named/enum/union shapes with exotic field types x all 50 derives. Outcome must be Ok, Err or a panic raised at an explicit panic!/assert! line; worker crashes (stack exhaustion) and super-cubic time on four scaling families are violations. Each distinct failing call site is minimised by token-tree deletion.",
+  "deliberate-vs-internal panic is decided by reading the source line of the panic location in the tree under test; nesting bounded at 64",
+  "DESIGN.md section 5 C18")
 NOT_YET = {}
 
 def main():
